@@ -56,7 +56,7 @@ def step (t : Tracker) (line : String) : Tracker × String :=
       packet "pkt" t k (match e with | none => .absent | some l => .edges l)
     | _, _ => (t, "bad-op")
   | "pktw" :: a :: es => match a.toNat?, parseEdges es with
-    | some k, some e => if es.length > 8 then (t, "bad-op") else
+    | some k, some e => if es.length > 8 || es == ["-"] then (t, "bad-op") else
       packet "pktw" t k (match e with | none => .absent | some l => .edges l)
     | _, _ => (t, "bad-op")
   | "pktn" :: _ => (t, s!"pktn {showState t} grid={showGrid t}")
